@@ -703,3 +703,305 @@ Example C09_x86_allocation_at_the_limit :
   hf_outcome (HEAP_BASE + HEAP_SIZE - 64) = hf_oob_load.
 Proof. exact (conj alloc_before_last_ok alloc_at_last_faults). Qed.
 Print Assumptions C09_x86_allocation_at_the_limit.
+
+(* ====================================================================================== *)
+(* AArch64: the allocator code of lang/axcut2aarch64/src/memory.rs (model: Model/A64.v, ISA semantics: Sem/A64Sem.v)
+   refines the SAME abstract allocator through an abstraction `abs_heap` of the AArch64 state (HEAP = X0, FREE = X1,
+   header = word 0 of a block, pointer slots = the words at offsets 16/32/48); `is_blk` and the block-wise equality
+   `st_eqB` are the ones of the x86-64 statements above (the ISA models place the heap at the same addresses).
+   Proof/A64Mem.v, Proof/A64MemOps.v.  Differences in the hypotheses: the header tests are `CMP #0` on the 64-bit
+   value, so headers that are tested must be 64-bit values (`min_int <= hword s rv <= max_int`, the lower bounds of
+   erase, `bounded`); counts are updated through TEMP2 = X3, so X2 AND X3 are scratch (`sbt`).
+   Every statement also says what is left alone: registers, spill slots, the stack outside the spill area
+   (`stack_frame`), heap words that are not block headers (`nonblk_same`), the output.
+   SEEDED DEFECT 1 (acquire_block into a spill slot initialising the header of the wrong block): for that variant
+   `C09_a64_acquire_block_spill` is false - in case (1) the conclusion demands header(rv) = 0 while the defective
+   code (`STR XZR, [HEAP]` after `LDR HEAP, [HEAP]`) leaves the free-list link in rv and clears the header of the
+   NEXT reusable block; in the proof, `a64_acquire_tail` (Proof/A64MemOps.v) needs `rget s ri = Some rv` for the
+   register the store goes through. *)
+From SCC Require Import Model.A64 Sem.A64Sem Proof.A64State Proof.A64Sel Proof.A64Exec Proof.A64Mem Proof.A64MemOps Proof.A64MemTop.
+
+Theorem C09_a64_share_block :
+  forall im pos t n lc s sp p F,
+    let cs := fst (a_share_block_n t n lc) in
+    code_at im pos cs -> labels_at im pos cs ->
+    frame_ok s sp -> operand_ok t -> lget s sp t = Some p ->
+    (p = 0 \/ is_blk p) ->
+    (p <> 0 -> AxSem.wrap (hword s p + Z.of_N n) = hword s p + Z.of_N n) ->
+    exists s', exec_to im pos s (padd pos (List.length cs)) s' /\
+       st_eqB (abs_heap F s') (Heap.share p (Z.of_N n) (abs_heap F s)) /\
+       sbt s s' /\ frame_ok s' sp /\
+       (forall a, hword s' a = if andb (negb (p =? 0)) (a =? p) then hword s p + Z.of_N n else hword s a).
+Proof. exact a64_share_block_ok. Qed.
+Print Assumptions C09_a64_share_block.
+
+Theorem C09_a64_erase_block :
+  forall im pos t lc s sp p f F,
+    let cs := fst (a_erase_block t lc) in
+    code_at im pos cs -> labels_at im pos cs ->
+    frame_ok s sp -> operand_ok t -> t <> AR FREE -> t <> AR HEAP -> lget s sp t = Some p -> rget s FREE = Some f ->
+    (p = 0 \/ is_blk p) ->
+    (p <> 0 -> AxSem.min_int + 1 <= hword s p <= AxSem.max_int) ->
+    exists s', exec_to im pos s (padd pos (List.length cs)) s' /\
+       st_eqB (abs_heap F s') (Heap.erase p (abs_heap F s)) /\
+       sbtf s s' /\ frame_ok s' sp /\ rget s' FREE = Some (Heap.free (Heap.erase p (abs_heap F s))) /\
+       nonblk_same s s'.
+Proof. exact a64_erase_block_ok. Qed.
+Print Assumptions C09_a64_erase_block.
+
+Theorem C09_a64_release_block :
+  forall im pos r s p h F,
+    code_at im pos (release_block r) -> gp r ->
+    rget s r = Some p -> rget s HEAP = Some h -> is_blk p ->
+    exists s', exec_to im pos s (padd pos 2) s' /\
+       st_eqB (abs_heap F s') (Heap.release p (abs_heap F s)) /\
+       (forall r', r' <> HEAP -> rget s' r' = rget s r') /\ rget s' HEAP = Some p /\ stack s' = stack s /\ out s' = out s /\
+       (forall a, hword s' a = if a =? p then h else hword s a).
+Proof. exact a64_release_block_ok. Qed.
+Print Assumptions C09_a64_release_block.
+
+(* acquire_block: (1) next block of the reuse list, (2) recycle the first deferred block and erase its three
+   children lazily, (3) bump; the new block in a register ... *)
+Theorem C09_a64_acquire_block_reg :
+  forall im pos r lc s sp rv h2 F,
+    let cs := fst (acquire_block (AR r) lc) in
+    code_at im pos cs -> labels_at im pos cs ->
+    frame_ok s sp -> gp r -> r <> HEAP -> r <> FREE -> r <> TEMP -> r <> TEMP2 ->
+    rget s HEAP = Some rv -> is_blk rv -> rget s FREE = Some h2 ->
+    AxSem.min_int <= hword s rv <= AxSem.max_int ->
+    (hword s rv = 0 -> is_blk h2) ->
+    (hword s rv = 0 -> hword s h2 <> 0 ->
+       (forall off, off = 16 \/ off = 32 \/ off = 48 -> hword s (h2 + off) = 0 \/ is_blk (hword s (h2 + off))) /\
+       bounded 3 s (hword s h2)) ->
+    exists s', exec_to im pos s (padd pos (List.length cs)) s' /\
+      st_eqB (abs_heap (Heap.frontier (snd (Heap.acquire (abs_heap F s)))) s') (snd (Heap.acquire (abs_heap F s))) /\
+      rget s' r = Some rv /\ fst (Heap.acquire (abs_heap F s)) = rv /\
+      (forall r', r' <> r -> r' <> TEMP -> r' <> TEMP2 -> r' <> HEAP -> r' <> FREE -> rget s' r' = rget s r') /\
+      stack s' = stack s /\ out s' = out s /\ frame_ok s' sp /\ nonblk_same s s'.
+Proof. exact a64_acquire_block_reg_ok. Qed.
+Print Assumptions C09_a64_acquire_block_reg.
+
+(* ... or in a spill slot (the path of seeded defect 1) *)
+Theorem C09_a64_acquire_block_spill :
+  forall im pos q lc s sp rv h2 F,
+    let cs := fst (acquire_block (AS q) lc) in
+    code_at im pos cs -> labels_at im pos cs ->
+    frame_ok s sp -> slot_ok q ->
+    rget s HEAP = Some rv -> is_blk rv -> rget s FREE = Some h2 ->
+    AxSem.min_int <= hword s rv <= AxSem.max_int ->
+    (hword s rv = 0 -> is_blk h2) ->
+    (hword s rv = 0 -> hword s h2 <> 0 ->
+       (forall off, off = 16 \/ off = 32 \/ off = 48 -> hword s (h2 + off) = 0 \/ is_blk (hword s (h2 + off))) /\
+       bounded 3 s (hword s h2)) ->
+    exists s', exec_to im pos s (padd pos (List.length cs)) s' /\
+      st_eqB (abs_heap (Heap.frontier (snd (Heap.acquire (abs_heap F s)))) s') (snd (Heap.acquire (abs_heap F s))) /\
+      sget s' sp q = Some rv /\ fst (Heap.acquire (abs_heap F s)) = rv /\
+      (forall r', r' <> TEMP -> r' <> TEMP2 -> r' <> HEAP -> r' <> FREE -> rget s' r' = rget s r') /\
+      (forall q', slot_ok q' -> q' <> q -> sget s' sp q' = sget s sp q') /\ out s' = out s /\ frame_ok s' sp /\
+      nonblk_same s s' /\ stack_frame s s' sp.
+Proof. exact a64_acquire_block_spill_ok. Qed.
+Print Assumptions C09_a64_acquire_block_spill.
+
+Theorem C09_a64_image :
+  forall cs, NoDup (label_names cs) -> code_at (mk_image cs) 1%positive cs /\ labels_at (mk_image cs) 1%positive cs.
+Proof. exact mk_image_code_labels. Qed.
+Print Assumptions C09_a64_image.
+
+Theorem C09_a64_steps_run :
+  forall im pc s pc' s', exec_to im pc s pc' s' ->
+    exists n, forall fuel, run_chunk (n + fuel) im pc s = run_chunk fuel im pc' s'.
+Proof. exact exec_to_run_chunk. Qed.
+Print Assumptions C09_a64_steps_run.
+
+(* ---------- AArch64: store (Let / Create) and load (Switch / Invoke) ---------- *)
+(* Proof/A64MemStore.v, A64MemStoreChain.v, A64MemLoad.v, A64MemLoadChain.v (ports of the x86-64 proofs; the abstract
+   side - `fsts`, `alloc_object_pre`, `alloc_object_acq`, `wblocks`, `waddrs`, `lf_share_ok`, `lf_addrs` - is literally
+   shared).  Only the strongest form of each theorem exists: besides the refinement of `Heap.alloc_object` /
+   `Heap.load_object` it gives the data words, the frame of the heap words, of the temporaries and of the stack.
+   `tpos k`: temporary of position k (registers X4..X29 for k < 26, spill slots k - 25 after, slot 0 is scratch).
+   Extra hypothesis of the store: `alloc_object_hdr64` (the header of the reserved block is a 64-bit value at every
+   acquire of the chain).
+   SEEDED DEFECT 2 (`register_freed` not reset between the Release and the Share call of `load_fields`): with the flag
+   carried over, the Share branch of a load whose block pointers sit in spill slots neither saves X10 = `tpos 6` before
+   using it for the block pointer nor restores it to its value (it reloads slot 0, stale); `C09_a64_load`'s conjunct
+   `forall k < 2 * |existing|, lget s' sp (tpos k) = lget s sp (tpos k)` is false for k = 6 then.  In the proof:
+   `a64_load_fields_ok` (Proof/A64MemLoadChain.v) is applied with `freed = false` in the Share branch of
+   `a64_load_walk_full`; with `freed = true` its `saved`/`lgetL` hypothesis reads slot 0, which nothing has written. *)
+From SCC Require Import Proof.X86HeapDefs Proof.X86HeapAcq.
+From SCC Require Import Proof.A64MemStore Proof.A64MemStoreChain Proof.A64MemLoad Proof.A64MemLoadChain.
+From SCC Require Import Model.A64 Sem.A64Sem Proof.A64State Proof.A64Exec Proof.A64Mem Proof.A64MemOps.
+
+Theorem C09_a64_store_empty :
+  forall im pos (remaining : ctx) lc cs lc' s sp,
+    a_store nil remaining lc = Ok (cs, lc') -> code_at im pos cs -> frame_ok s sp ->
+    lc' = lc /\
+    exists s', exec_to im pos s (padd pos (length cs)) s' /\
+      lget s' sp (tpos (2 * N.of_nat (length remaining))) = Some 0 /\
+      (forall l, loc_ok l -> l <> tpos (2 * N.of_nat (length remaining)) -> l <> AR TEMP -> lget s' sp l = lget s sp l) /\
+      heap s' = heap s /\ out s' = out s /\ frame_ok s' sp /\ stack_frame s s' sp.
+Proof. exact a64_store_empty_ok. Qed.
+Print Assumptions C09_a64_store_empty.
+
+Theorem C09_a64_store_one_block :
+  forall im pos (to_store remaining : ctx) lc cs lc' s sp rv h2 F val,
+    a_store to_store remaining lc = Ok (cs, lc') -> (1 <= length to_store <= 3)%nat ->
+    code_at im pos cs -> labels_at im pos cs -> frame_ok s sp ->
+    rget s HEAP = Some rv -> is_blk rv -> rget s FREE = Some h2 ->
+    AxSem.min_int <= hword s rv <= AxSem.max_int ->
+    (hword s rv = 0 -> is_blk h2) ->
+    (hword s rv = 0 -> hword s h2 <> 0 ->
+       (forall off, off = 16 \/ off = 32 \/ off = 48 -> hword s (h2 + off) = 0 \/ is_blk (hword s (h2 + off))) /\
+       bounded 3 s (hword s h2)) ->
+    vals_ok s sp val (length remaining) to_store ->
+    let E := length remaining in let n := length to_store in
+    let res := Heap.alloc (Heap.pad 3 (fsts val E to_store)) (abs_heap F s) in
+    exists s', exec_to im pos s (padd pos (length cs)) s' /\
+      st_eqB (abs_heap (Heap.frontier (snd res)) s') (snd res) /\ fst res = rv /\
+      lget s' sp (tpos (2 * N.of_nat E)) = Some rv /\
+      (forall i, (i < n)%nat -> hword s' (rv + field_offset Snd (3 - N.of_nat n + N.of_nat i)) = snd_slot val (E + i)) /\
+      (forall k, (k < MAXPOS)%N -> k <> (2 * N.of_nat E)%N -> lget s' sp (tpos k) = lget s sp (tpos k)) /\
+      out s' = out s /\ frame_ok s' sp /\ stack_frame s s' sp.
+Proof. exact a64_store_one_block_ok. Qed.
+Print Assumptions C09_a64_store_one_block.
+
+(* any number of fields (chains), the new block pointers in registers or spill slots: a_store = Heap.alloc_object *)
+Theorem C09_a64_store :
+  forall im pos (to_store remaining : ctx) lc cs lc' s sp F val,
+    a_store to_store remaining lc = Ok (cs, lc') -> to_store <> nil ->
+    code_at im pos cs -> labels_at im pos cs -> frame_ok s sp ->
+    vals_ok s sp val (length remaining) to_store ->
+    let E := length remaining in let n := length to_store in let k := Heap.nlinks n in
+    let fields := fsts val E to_store in
+    alloc_object_pre fields (abs_heap F s) -> alloc_object_hdr64 fields (abs_heap F s) ->
+    NoDup (alloc_object_acq fields (abs_heap F s)) ->
+    let res := Heap.alloc_object fields (abs_heap F s) in
+    exists s', exec_to im pos s (padd pos (length cs)) s' /\
+      st_eqB (abs_heap (Heap.frontier (snd res)) s') (snd res) /\
+      lget s' sp (tpos (2 * N.of_nat E)) = Some (fst res) /\
+      (forall q, (q < 2 * N.of_nat E)%N -> lget s' sp (tpos q) = lget s sp (tpos q)) /\
+      out s' = out s /\ frame_ok s' sp /\
+      wblocks k (hword s') (fst res) = rev (alloc_object_acq fields (abs_heap F s)) /\
+      Forall is_blk (wblocks k (hword s') (fst res)) /\
+      (let A := waddrs k (hword s') (fst res) in
+       (forall i b, nth_error to_store i = Some b ->
+          let a := nth (length A - n + i) A 0 in
+          hword s' a = fst_slot val (E + i) b /\ hword s' (a + 8) = snd_slot val (E + i)) /\
+       (forall j, (j < length A - n)%nat -> hword s' (nth j A 0) = 0)) /\
+      (forall a, ~ is_blk a -> (forall b, In b (alloc_object_acq fields (abs_heap F s)) -> a < b \/ b + 64 <= a) -> hword s' a = hword s a) /\
+      stack_frame s s' sp.
+Proof. exact a64_store_full. Qed.
+Print Assumptions C09_a64_store.
+
+Theorem C09_a64_load_one_block :
+  forall im pos (to_load existing : ctx) lc cs lc' s sp p h F,
+    a_load to_load existing lc = Ok (cs, lc') -> (1 <= length to_load <= 3)%nat ->
+    code_at im pos cs -> labels_at im pos cs -> frame_ok s sp ->
+    lget s sp (tpos (2 * N.of_nat (length existing))) = Some p -> is_blk p -> rget s HEAP = Some h ->
+    load_pre s p (length existing) to_load ->
+    exists s', exec_to im pos s (padd pos (length cs)) s' /\
+      st_eqB (abs_heap F s') (Heap.load p (abs_heap F s)) /\
+      (forall i b, nth_error to_load i = Some b ->
+         lget s' sp (tpos (2 * N.of_nat (length existing + i) + 1)) =
+           Some (hword s (p + field_offset Snd (3 - N.of_nat (length to_load) + N.of_nat i))) /\
+         (bchi b <> AxSyn.Ext -> lget s' sp (tpos (2 * N.of_nat (length existing + i))) =
+           Some (hword s (p + field_offset Fst (3 - N.of_nat (length to_load) + N.of_nat i))))) /\
+      (forall k, (k < 2 * N.of_nat (length existing))%N -> lget s' sp (tpos k) = lget s sp (tpos k)) /\
+      out s' = out s /\ frame_ok s' sp.
+Proof. exact a64_load_one_block_ok. Qed.
+Print Assumptions C09_a64_load_one_block.
+
+(* any number of fields, both modes, block pointers in registers or in spill slots (then worked on in X10, which is
+   saved to slot 0 and restored): a_load = Heap.load_object *)
+Theorem C09_a64_load :
+  forall im pos (to_load existing : ctx) lc cs lc' s sp p h F,
+    a_load to_load existing lc = Ok (cs, lc') -> to_load <> nil ->
+    code_at im pos cs -> labels_at im pos cs -> frame_ok s sp ->
+    lget s sp (tpos (2 * N.of_nat (length existing))) = Some p -> is_blk p -> rget s HEAP = Some h ->
+    lf_share_ok (S (length to_load)) (hword s) to_load X86.Last p ->
+    (forall x, is_blk x -> AxSem.min_int + 1 <= hword s x /\ hword s x + Z.of_nat (length to_load) <= AxSem.max_int) ->
+    exists s', exec_to im pos s (padd pos (length cs)) s' /\
+      st_eqB (abs_heap F s') (Heap.load_object (Heap.nlinks (length to_load)) p (abs_heap F s)) /\
+      (forall i b, nth_error to_load i = Some b ->
+         let A := lf_addrs (S (length to_load)) (hword s) to_load X86.Last p in
+         let a := nth (length A - length to_load + i) A 0 in
+         lget s' sp (tpos (2 * N.of_nat (length existing + i) + 1)) = Some (hword s (a + 8)) /\
+         (bchi b <> AxSyn.Ext -> lget s' sp (tpos (2 * N.of_nat (length existing + i))) = Some (hword s a))) /\
+      (forall k, (k < 2 * N.of_nat (length existing))%N -> lget s' sp (tpos k) = lget s sp (tpos k)) /\
+      out s' = out s /\ frame_ok s' sp /\
+      nonblk_same s s' /\ (exists h', rget s' HEAP = Some h') /\ rget s' FREE = rget s FREE /\ stack_frame s s' sp.
+Proof. exact a64_load_full. Qed.
+Print Assumptions C09_a64_load.
+
+(* non-vacuity: a 5-field object (2 blocks) stored behind 13 variables - the new block pointers go to spill slots, the
+   path of seeded defect 1 - and a shared 2-block object loaded behind 13 variables - every block pointer in a spill
+   slot, X10 evacuated and restored, the path of seeded defect 2 *)
+Example C09_a64_store_example :
+  let a := abs_heap (HEAP_BASE + 64) A64MemStoreChain.ex5_state in
+  let res := Heap.alloc_object (fsts A64MemStoreChain.ex5_val 13 A64MemStoreChain.ex5_store) a in
+  exists lc', a_store A64MemStoreChain.ex5_store A64MemStoreChain.ex5_rem 0 = Ok (A64MemStoreChain.ex5_code, lc') /\
+  fsts A64MemStoreChain.ex5_val 13 A64MemStoreChain.ex5_store = 0 :: 128 :: 0 :: 132 :: 0 :: nil /\ tpos 26 = AS 1 /\
+  fst res = HEAP_BASE + 64 /\ Heap.frontier (snd res) = HEAP_BASE + 192 /\
+  exists s', exec_to (mk_image A64MemStoreChain.ex5_code) 1 A64MemStoreChain.ex5_state (padd 1 (length A64MemStoreChain.ex5_code)) s' /\
+     st_eqB (abs_heap (HEAP_BASE + 192) s') (snd res) /\ sget s' A64MemStoreChain.ex_sp 1 = Some (HEAP_BASE + 64) /\
+     wblocks 1 (hword s') (HEAP_BASE + 64) = (HEAP_BASE + 64) :: HEAP_BASE :: nil /\
+     hword s' (HEAP_BASE + 64 + 16 + 8) = 127 /\ hword s' (HEAP_BASE + 64 + 32) = 128 /\ hword s' (HEAP_BASE + 48 + 8) = 135 /\
+     stack_frame A64MemStoreChain.ex5_state s' A64MemStoreChain.ex_sp.
+Proof. exact a64_store_example. Qed.
+Print Assumptions C09_a64_store_example.
+
+Example C09_a64_load_example :
+  exists lc', a_load X86MemStoreChain.ex5_store ex13_existing 0 = Ok (ex13_code, lc') /\
+  hword ex13_state HEAP_BASE = 1 /\ rget ex13_state TEMPORARY_TEMP = Some 777 /\
+  exists s', exec_to (mk_image ex13_code) 1 ex13_state (padd 1 (length ex13_code)) s' /\
+     st_eqB (abs_heap (HEAP_BASE + 256) s') (Heap.load_object 1 HEAP_BASE (abs_heap (HEAP_BASE + 256) ex13_state)) /\
+     sget s' A64MemLoadChain.ex_sp 2 = Some 11 /\ sget s' A64MemLoadChain.ex_sp 3 = Some (HEAP_BASE + 128) /\
+     sget s' A64MemLoadChain.ex_sp 10 = Some 55 /\ rget s' TEMPORARY_TEMP = Some 777.
+Proof. exact a64_load_example. Qed.
+Print Assumptions C09_a64_load_example.
+
+(* the memory part of `substitute` on AArch64 (Proof/A64MemSubstOps.v; the shape of C09_x86_substitute_memory): the code
+   `code_weakening_contraction` emits for the transposed map tm refines exactly the operation list the instrumented machine
+   performs for the substitution; `hb lo hi` keeps the counts from wrapping and every tested header a 64-bit value *)
+From SCC Require Import Proof.A64MemSubstOps.
+Theorem C09_a64_substitute_memory :
+  forall im (ptr : binding -> Z) context F sp tm lc cs lc' pos s f,
+    code_weakening_contraction a64_backend tm context lc = Ok (cs, lc') ->
+    code_at im pos cs -> labels_at im pos cs -> frame_ok s sp -> rget s FREE = Some f ->
+    (forall b targets t, In (b, targets) tm -> bchi b <> AxSyn.Ext ->
+       variable_temporary a64_backend Fst context (idn (bvar b)) = Ok t ->
+       lget s sp t = Some (ptr b) /\ (ptr b = 0 \/ is_blk (ptr b))) ->
+    let acts := A64MemSubstOps.tm_acts ptr context tm in
+    A64MemSubstOps.hb (A64MemSubstOps.n_erase acts) (A64MemSubstOps.n_share acts) s f ->
+    A64MemSubstOps.n_share acts <= 2 ^ 31 - 1 -> A64MemSubstOps.n_erase acts <= 2 ^ 31 - 1 ->
+    let ops := flat_map (fun bt : binding * list N => rc_op (bchi (fst bt)) (ptr (fst bt)) (length (snd bt))) tm in
+    exists s', exec_to im pos s (padd pos (length cs)) s' /\
+      st_eqB (abs_heap F s') (hrun ops (abs_heap F s)) /\
+      sbtf s s' /\ frame_ok s' sp /\
+      rget s' FREE = Some (Heap.free (hrun ops (abs_heap F s))).
+Proof. exact a64_weakening_contraction_ok. Qed.
+Print Assumptions C09_a64_substitute_memory.
+
+(* THE TWO SEEDED DEFECTS, put into the model, refute the statements above on concrete states (Proof/A64MemDefects.v, by
+   evaluation of the ISA model).  (1) acquire_block into a spill slot with `STR XZR, [HEAP]` for `STR XZR, [TEMP]`: from a state
+   whose reuse list has two blocks the real code clears the header of the acquired block (as Heap.acquire demands), the
+   defective code leaves the free-list link there - the abstraction of its final state is NOT Heap.acquire of the first. *)
+From SCC Require Import Proof.A64MemDefects.
+Theorem C09_a64_seeded_defect1_refuted :
+  let a := abs_heap (HEAP_BASE + 128) d1_state in
+  fst (Heap.acquire a) = HEAP_BASE /\ Heap.hdr (Heap.m (snd (Heap.acquire a)) HEAP_BASE) = 0 /\
+  (exists s', final_state (fst (acquire_block (AS 1) 0)) d1_state = Some s' /\
+              sget s' d1_sp 1 = Some HEAP_BASE /\ hword s' HEAP_BASE = 0 /\ rget s' HEAP = Some (HEAP_BASE + 64)) /\
+  (exists s', final_state (fst (acquire_block_bad (AS 1) 0)) d1_state = Some s' /\
+              sget s' d1_sp 1 = Some HEAP_BASE /\ hword s' HEAP_BASE = HEAP_BASE + 64 /\
+              ~ st_eqB (abs_heap (HEAP_BASE + 128) s') (snd (Heap.acquire a))).
+Proof. exact defect1_refutes_acquire_spill. Qed.
+Print Assumptions C09_a64_seeded_defect1_refuted.
+(* (2) `register_freed` carried over from the Release to the Share call of load_fields: loading the shared two-block object of
+   C09_a64_load_example behind 13 variables, the real code restores X10 = `tpos 6` (a live variable of `existing`), the
+   defective code does not - the conjunct "temporaries below 2 * |existing| unchanged" of C09_a64_load fails for it *)
+Theorem C09_a64_seeded_defect2_refuted :
+  lget ex13_state A64MemLoadChain.ex_sp (tpos 6) = Some 777 /\ (6 < 2 * N.of_nat (length ex13_existing))%N /\
+  (exists s', final_state ex13_code ex13_state = Some s' /\ lget s' A64MemLoadChain.ex_sp (tpos 6) = Some 777) /\
+  (exists s', final_state ex13_code_bad ex13_state = Some s' /\ lget s' A64MemLoadChain.ex_sp (tpos 6) <> Some 777).
+Proof. exact defect2_refutes_load. Qed.
+Print Assumptions C09_a64_seeded_defect2_refuted.
